@@ -18,6 +18,7 @@ CONSTANTS
   Filter = "none"
   NoLockSet = {FALSE}
   TickInList = TRUE
+  WBFlock = FALSE
   POR = FALSE
   MaxHist = 0
 VIEW view
